@@ -2,7 +2,7 @@
    facts about the RFC 3986 5.2 specification, and the recorded defects. *)
 From Sophia.Common Require Import Prelude.
 From Sophia.C09 Require Import Regex Rfc3987 Resolve Model PreFix.
-From Sophia.C09 Require Lang EquivIri EquivIrel Classify.
+From Sophia.C09 Require Lang EquivIri EquivIrel Classify SchemeAscii.
 
 (* ---------- part (1): validation = RFC 3987 ---------- *)
 Theorem is_absolute_iri_ref_spec : forall s, is_absolute_iri_ref s = matchb IRI s.
@@ -477,4 +477,128 @@ Proof.
   - apply resolve_rel_impl_valid.
   - eapply resolve_rel_no_scheme; eassumption.
   - eapply resolve_rel_no_scheme; eassumption.
+Qed.
+
+(* ====================================================================================================
+   the serde entry points (Model.v, last section) and the scheme of an accepted text
+   ==================================================================================================== *)
+Theorem iri_deserialize_spec : forall s, iri_deserialize s = if matchb IRI s then Some s else None.
+Proof. intro s. unfold iri_deserialize. rewrite iri_new_spec. reflexivity. Qed.
+Theorem iriref_deserialize_spec : forall s,
+  iriref_deserialize s = if matchb IRI_reference s then Some s else None.
+Proof. intro s. unfold iriref_deserialize. rewrite iriref_new_spec. reflexivity. Qed.
+
+(* a deserialized value holds the text it was read from *)
+Theorem deserialize_keeps_text : forall s t,
+  iri_deserialize s = Some t \/ iriref_deserialize s = Some t -> t = s.
+Proof.
+  intros s t [H|H]; [unfold iri_deserialize in H; destruct (iri_new_ok s) | unfold iriref_deserialize in H; destruct (iriref_new_ok s)];
+    congruence.
+Qed.
+
+(* a relative reference is never read as an Iri, wherever its colons are ("?a:b", "#a:b", "a/b:c" ...) *)
+Theorem relative_ref_never_deserialized_as_iri : forall s,
+  matchb irelative_ref s = true -> iri_deserialize s = None /\ iriref_deserialize s = Some s.
+Proof.
+  intros s H. rewrite iri_deserialize_spec, iriref_deserialize_spec. split.
+  - destruct (matchb IRI s) eqn:E; [|reflexivity].
+    rewrite (Classify.iri_irelative_ref_disjoint s E) in H. discriminate.
+  - unfold IRI_reference. rewrite Lang.matchb_alt, H, orb_true_r. reflexivity.
+Qed.
+
+(* what is read as an Iri is read as an IriRef *)
+Theorem iri_deserialize_is_iriref : forall s t, iri_deserialize s = Some t -> iriref_deserialize s = Some t.
+Proof.
+  intros s t H. rewrite iri_deserialize_spec in H. rewrite iriref_deserialize_spec.
+  unfold IRI_reference. rewrite Lang.matchb_alt. destruct (matchb IRI s); [exact H | discriminate].
+Qed.
+
+(* Serialize then Deserialize gives the value back *)
+Theorem iri_roundtrip_spec : forall s, iri_roundtrip s = iri_deserialize s.
+Proof.
+  intro s. unfold iri_roundtrip, wrapper_serialize. destruct (iri_deserialize s) as [t|] eqn:E; [|reflexivity].
+  assert (t = s) by (apply (deserialize_keeps_text s t); left; exact E). subst t. exact E.
+Qed.
+Theorem iriref_roundtrip_spec : forall s, iriref_roundtrip s = iriref_deserialize s.
+Proof.
+  intro s. unfold iriref_roundtrip, wrapper_serialize. destruct (iriref_deserialize s) as [t|] eqn:E; [|reflexivity].
+  assert (t = s) by (apply (deserialize_keeps_text s t); right; exact E). subst t. exact E.
+Qed.
+
+(* the untagged enum { Abs(Iri), Ref(IriRef) } classifies like RFC 3987 *)
+Theorem untagged_classifies : forall s,
+  untagged_abs_or_ref s =
+  if matchb IRI s then Some (true, s) else if matchb irelative_ref s then Some (false, s) else None.
+Proof.
+  intro s. unfold untagged_abs_or_ref. rewrite iri_deserialize_spec, iriref_deserialize_spec.
+  unfold IRI_reference. rewrite Lang.matchb_alt. destruct (matchb IRI s); [reflexivity|].
+  cbn [orb]. destruct (matchb irelative_ref s); reflexivity.
+Qed.
+
+(* a deserialized Iri is accepted by the resolver's recogniser (Iri::as_base does not panic) *)
+Theorem deserialized_iri_is_a_base : forall s t, iri_deserialize s = Some t -> base_iri_new_ok t = true.
+Proof.
+  intros s t H. assert (t = s) by (apply (deserialize_keeps_text s t); left; exact H). subst t.
+  unfold iri_deserialize in H. unfold base_iri_new_ok. unfold iri_new_ok in H.
+  destruct (is_absolute_iri_ref s); [reflexivity | discriminate].
+Qed.
+
+(* the scheme of a text accepted by any validating constructor is an RFC 3986 scheme, hence ASCII: the characters
+   that Unicode case folding ties to ASCII letters (U+017F, U+212A ...) cannot occur there *)
+Theorem accepted_scheme_is_ascii : forall s, iri_new_ok s = true ->
+  exists sch rest, s = sch ++ 58 :: rest /\ matchb scheme sch = true /\ Forall (fun c => c < 128) sch.
+Proof. intros s H. rewrite iri_new_spec in H. exact (SchemeAscii.iri_scheme_is_ascii s H). Qed.
+Theorem non_ascii_before_colon_rejected : forall pre c rest,
+  Forall (fun x => x <> 58) pre -> 128 <= c ->
+  iri_new_ok (pre ++ c :: rest) = false /\ iri_deserialize (pre ++ c :: rest) = None.
+Proof.
+  intros pre c rest Hp Hc.
+  assert (E : iri_new_ok (pre ++ c :: rest) = false).
+  { rewrite iri_new_spec. exact (SchemeAscii.non_ascii_before_colon_not_iri pre c rest Hp Hc). }
+  split; [exact E|]. unfold iri_deserialize. rewrite E. reflexivity.
+Qed.
+
+Definition str_q_a_colon_b : str := [63;97;58;98].            (* "?a:b" *)
+Definition str_long_s_scheme : str := [104;116;116;112;383;58;47;47;97;47].   (* "http\u{17F}://a/" *)
+Definition str_kelvin_scheme : str := [8490;101;121;58;118].  (* "\u{212A}ey:v" *)
+Definition str_urn_long_s_kelvin : str := [117;114;110;58;383;8490].   (* "urn:\u{17F}\u{212A}" *)
+Example serde_examples :
+  iri_deserialize str_q_a_colon_b = None /\ iriref_deserialize str_q_a_colon_b = Some str_q_a_colon_b /\
+  untagged_abs_or_ref str_q_a_colon_b = Some (false, str_q_a_colon_b) /\
+  iri_deserialize [97;58;98] = Some [97;58;98] /\ untagged_abs_or_ref [97;58;98] = Some (true, [97;58;98]) /\
+  untagged_abs_or_ref [97;32;98] = None /\ iri_roundtrip [97;58;98] = Some [97;58;98] /\
+  iriref_roundtrip str_q_a_colon_b = Some str_q_a_colon_b /\ iri_roundtrip str_q_a_colon_b = None /\
+  serde_ok str_q_a_colon_b None (Some str_q_a_colon_b) (Some false) None (Some str_q_a_colon_b) = true /\
+  serde_ok str_q_a_colon_b (Some str_q_a_colon_b) (Some str_q_a_colon_b) (Some true) None (Some str_q_a_colon_b) = false.
+Proof. vm_compute. repeat split; reflexivity. Qed.
+(* the regenerated expressions themselves on the case-folding partners of 's' and 'k' *)
+Example case_folding_partners_examples :
+  is_absolute_iri_ref str_long_s_scheme = false /\ is_valid_iri_ref str_long_s_scheme = false /\
+  is_absolute_iri_ref str_kelvin_scheme = false /\ is_valid_iri_ref str_kelvin_scheme = false /\
+  is_absolute_iri_ref str_urn_long_s_kelvin = true /\ iri_deserialize str_long_s_scheme = None.
+Proof. vm_compute. repeat split; reflexivity. Qed.
+
+(* the statements above that rest on the two `ka` equivalences, in one theorem (one Print Assumptions walk) *)
+Theorem serde_entry_points_rfc3987 :
+  (forall s, iri_deserialize s = if matchb IRI s then Some s else None) /\
+  (forall s, iriref_deserialize s = if matchb IRI_reference s then Some s else None) /\
+  (forall s, matchb irelative_ref s = true -> iri_deserialize s = None /\ iriref_deserialize s = Some s) /\
+  (forall s t, iri_deserialize s = Some t -> iriref_deserialize s = Some t) /\
+  (forall s, untagged_abs_or_ref s =
+     if matchb IRI s then Some (true, s) else if matchb irelative_ref s then Some (false, s) else None) /\
+  (forall s, iri_new_ok s = true ->
+     exists sch rest, s = sch ++ 58 :: rest /\ matchb scheme sch = true /\ Forall (fun c => c < 128) sch) /\
+  (forall pre c rest, Forall (fun x => x <> 58) pre -> 128 <= c ->
+     iri_new_ok (pre ++ c :: rest) = false /\ iri_deserialize (pre ++ c :: rest) = None).
+Proof.
+  repeat split.
+  - apply iri_deserialize_spec.
+  - apply iriref_deserialize_spec.
+  - apply relative_ref_never_deserialized_as_iri; assumption.
+  - apply relative_ref_never_deserialized_as_iri; assumption.
+  - apply iri_deserialize_is_iriref.
+  - apply untagged_classifies.
+  - apply accepted_scheme_is_ascii.
+  - apply non_ascii_before_colon_rejected; assumption.
+  - apply non_ascii_before_colon_rejected; assumption.
 Qed.
